@@ -10,11 +10,13 @@ package dastard
 import (
 	"bytes"
 	"fmt"
+	"os"
 	"sync"
 	"testing"
 	"time"
 
 	"github.com/usnistgov/dastard/packets"
+	"github.com/usnistgov/dastard/ringbuffer"
 	"pgregory.net/rapid"
 )
 
@@ -36,6 +38,7 @@ type c03Case struct {
 	Ticks      [][]int    `json:"ticks"`       // per read tick, per group: how many further packet positions arrive (lost ones included)
 	Lost       [][]int    `json:"lost"`        // per group: lost run-phase positions (0-based, after the sampling phase)
 	Interleave bool       `json:"interleave"`  // packets of different groups alternate within a tick (else group after group)
+	Ring       bool       `json:"ring,omitempty"` // the producers are real AbacoRings over real shared-memory ring buffers the harness writes into
 	Seed       int        `json:"seed"`
 }
 
@@ -85,6 +88,9 @@ func c03Value(seed, g, k int, frame int64) int32 {
 }
 
 type c03Producer struct {
+	ring    *AbacoRing             // ring mode: the real reader ...
+	writer  *ringbuffer.RingBuffer // ... and the harness' writing end of the same shared memory
+	ringErr string
 	mu      sync.Mutex
 	sample  []*packets.Packet
 	ticks   [][]*packets.Packet
@@ -95,10 +101,43 @@ type c03Producer struct {
 	extra   int // calls after the script before done is signalled
 }
 
-func (p *c03Producer) start() error        { return nil }
-func (p *c03Producer) discardStale() error { return nil }
-func (p *c03Producer) stop() error         { return nil }
+func (p *c03Producer) start() error {
+	if p.ring != nil {
+		return p.ring.start()
+	}
+	return nil
+}
+func (p *c03Producer) discardStale() error {
+	if p.ring != nil {
+		return p.ring.discardStale()
+	}
+	return nil
+}
+func (p *c03Producer) stop() error {
+	if p.ring != nil {
+		return p.ring.stop()
+	}
+	return nil
+}
+
+// viaRing writes the packets into the shared-memory ring as the hardware's DMA does (one 8192-byte slot each) and
+// lets the real AbacoRing read them back.
+func (p *c03Producer) viaRing(ps []*packets.Packet) ([]*packets.Packet, error) {
+	for _, q := range ps {
+		b := q.Bytes()
+		slot := make([]byte, (len(b)+8191)/8192*8192)
+		copy(slot, b)
+		if n, err := p.writer.Write(slot); err != nil || n != len(slot) {
+			p.ringErr = fmt.Sprintf("harness: ring took %d of %d bytes (%v)", n, len(slot), err)
+			return nil, fmt.Errorf("%s", p.ringErr)
+		}
+	}
+	return p.ring.ReadAllPackets()
+}
 func (p *c03Producer) samplePackets(d time.Duration) ([]*packets.Packet, error) {
+	if p.ring != nil {
+		return p.viaRing(p.sample)
+	}
 	return p.sample, nil
 }
 func (p *c03Producer) ReadAllPackets() ([]*packets.Packet, error) {
@@ -107,6 +146,9 @@ func (p *c03Producer) ReadAllPackets() ([]*packets.Packet, error) {
 	if p.next < len(p.ticks) {
 		out := p.ticks[p.next]
 		p.next++
+		if p.ring != nil {
+			return p.viaRing(out)
+		}
 		return out, nil
 	}
 	p.extra++
@@ -318,6 +360,34 @@ func c03Run(c c03Case) (v vVerdict) {
 		return vFailf("harness", "NewAbacoSource: %v", err)
 	}
 	as.producers = as.producers[:0]
+	ringMode := c.Ring
+	if ringMode { // every batch must fit into the ring (255 slots) and every packet into one slot
+		for _, pr := range prods {
+			for _, tk := range append([][]*packets.Packet{pr.sample}, pr.ticks...) {
+				if len(tk) > 250 {
+					ringMode = false
+				}
+				for _, q := range tk {
+					if q.Length() > 8192 {
+						ringMode = false
+					}
+				}
+			}
+		}
+	}
+	if ringMode {
+		for i, pr := range prods {
+			name := fmt.Sprintf("verif_c03_%d_%s_%d", os.Getpid(), os.Getenv("VERIF_SHARD"), i)
+			w, _ := ringbuffer.NewRingBuffer(name+"_buffer", name+"_description")
+			w.Unlink()
+			if err := w.Create(256 * 8192); err != nil {
+				return vVerdict{Inconclusive: "cannot create a shared-memory ring: " + err.Error()}
+			}
+			defer func() { w.Close(); w.Unlink() }()
+			r, _ := ringbuffer.NewRingBuffer(name+"_buffer", name+"_description")
+			pr.writer, pr.ring = w, &AbacoRing{ringnum: -1, ring: r}
+		}
+	}
 	for _, pr := range prods {
 		as.producers = append(as.producers, pr)
 	}
@@ -473,6 +543,9 @@ func c03Run(c c03Case) (v vVerdict) {
 	if ng > 1 {
 		v.Classes = append(v.Classes, "multi-group")
 	}
+	if ringMode {
+		v.Classes = append(v.Classes, "real-ring-buffers")
+	}
 	if lagging {
 		v.Classes = append(v.Classes, "lagging-group")
 	}
@@ -496,6 +569,7 @@ func c03Gen(t *rapid.T) c03Case {
 	c.NSample = rapid.IntRange(2, 6).Draw(t, "nsample")
 	c.Seed = rapid.IntRange(0, 1<<20).Draw(t, "seed")
 	c.Interleave = rapid.Bool().Draw(t, "interleave")
+	c.Ring = rapid.IntRange(0, 3).Draw(t, "ring") == 0
 	first := rapid.SampledFrom([]int{0, 1, 100}).Draw(t, "firstchan")
 	var groups []c03Group
 	for gi := 0; gi < ng; gi++ {
